@@ -1,0 +1,149 @@
+// This Source Code Form is subject to the terms of the Mozilla Public
+// License, v. 2.0. If a copy of the MPL was not distributed with this
+// file, You can obtain one at http://mozilla.org/MPL/2.0/.
+//
+// Copyright (c) DUSK NETWORK. All rights reserved.
+
+//! Verification seams, compiled only with `--cfg plonk_verif`.
+//!
+//! Read-only snapshots of the constraint system, a witness override and thin
+//! public wrappers over in-crate gadget seams. Nothing here is reachable in a
+//! normal build.
+
+use alloc::vec::Vec;
+
+use dusk_bls12_381::BlsScalar;
+use dusk_jubjub::{JubJubAffine, JubJubExtended};
+
+use super::{Composer, Constraint, Selector, Witness, WitnessPoint};
+use crate::error::Error;
+
+/// Flat copy of one gate: 11 selectors followed by the 4 wire indices.
+pub type VerifGate = ([BlsScalar; 11], [usize; 4]);
+
+impl Composer {
+    /// Gates, witness values and (sorted) sparse public inputs.
+    pub fn verif_snapshot(
+        &self,
+    ) -> (Vec<VerifGate>, Vec<BlsScalar>, Vec<(usize, BlsScalar)>) {
+        let gates = self
+            .constraints
+            .iter()
+            .map(|g| {
+                (
+                    [
+                        g.q_m,
+                        g.q_l,
+                        g.q_r,
+                        g.q_o,
+                        g.q_f,
+                        g.q_c,
+                        g.q_arith,
+                        g.q_range,
+                        g.q_logic,
+                        g.q_fixed_group_add,
+                        g.q_variable_group_add,
+                    ],
+                    [g.a.index(), g.b.index(), g.c.index(), g.d.index()],
+                )
+            })
+            .collect();
+        let pis = self
+            .public_input_indexes()
+            .into_iter()
+            .map(|i| (i, self.public_inputs[&i]))
+            .collect();
+
+        (gates, self.witnesses.clone(), pis)
+    }
+
+    /// Number of allocated witnesses.
+    pub fn verif_witness_count(&self) -> usize {
+        self.witnesses.len()
+    }
+
+    /// Handle for an already allocated witness index.
+    pub fn verif_witness(&self, index: usize) -> Option<Witness> {
+        (index < self.witnesses.len()).then(|| Witness::new(index))
+    }
+
+    /// Override the value of an allocated witness (layout untouched).
+    pub fn verif_set_witness(&mut self, index: usize, value: BlsScalar) {
+        if let Some(w) = self.witnesses.get_mut(index) {
+            *w = value;
+        }
+    }
+
+    /// Append a raw row: all 12 coefficients (in `Selector` order) as given.
+    pub fn verif_raw_gate(
+        &mut self,
+        coefficients: [BlsScalar; 12],
+        has_public_input: bool,
+        wires: [Witness; 4],
+    ) {
+        const SELECTORS: [Selector; 12] = [
+            Selector::Multiplication,
+            Selector::Left,
+            Selector::Right,
+            Selector::Output,
+            Selector::Fourth,
+            Selector::Constant,
+            Selector::PublicInput,
+            Selector::Arithmetic,
+            Selector::Range,
+            Selector::Logic,
+            Selector::GroupAddFixedBase,
+            Selector::GroupAddVariableBase,
+        ];
+        let mut c = Constraint::new()
+            .a(wires[0])
+            .b(wires[1])
+            .c(wires[2])
+            .d(wires[3]);
+        if has_public_input {
+            c = c.public(coefficients[6]);
+        }
+        for (s, v) in SELECTORS.iter().zip(coefficients.iter()) {
+            c = c.set(*s, *v);
+        }
+        self.append_custom_gate(c);
+    }
+
+    /// Runtime-width seam over the in-crate `range_check`.
+    pub fn verif_range_check(&mut self, value: Witness, num_bits: usize) {
+        self.range_check(value, num_bits);
+    }
+
+    /// Untyped addition seam over the in-crate `add_point_gates`.
+    pub fn verif_add_point_gates(
+        &mut self,
+        a: WitnessPoint,
+        b: WitnessPoint,
+    ) -> WitnessPoint {
+        self.add_point_gates(a, b)
+    }
+
+    /// Untyped point handle from two witnesses.
+    pub fn verif_point(x: Witness, y: Witness) -> WitnessPoint {
+        WitnessPoint::new(x, y)
+    }
+
+    /// Seam over `assert_torsion_free_gates` with a caller-chosen `Q`.
+    pub fn verif_assert_torsion_free_gates(
+        &mut self,
+        point: WitnessPoint,
+        q: JubJubAffine,
+    ) {
+        self.assert_torsion_free_gates(point, q);
+    }
+
+    /// Seam over `append_fixed_base_signed_digits`.
+    pub fn verif_fixed_base_signed_digits(
+        &mut self,
+        jubjub: Witness,
+        generator: JubJubExtended,
+        signed_digits: &[i8; 256],
+    ) -> Result<WitnessPoint, Error> {
+        self.append_fixed_base_signed_digits(jubjub, generator, signed_digits)
+    }
+}
